@@ -2,10 +2,11 @@ from . import astronomy, functions, image_processing, wfs, turbulence, opticalpr
 
 from .astronomy import *
 from .functions import *
-from .fouriertransform import *
 from .interpolation import *
 from .turbulence import *
 from .image_processing import *
+# after .turbulence: its phasescreen module has a private helper also called ift2
+from .fouriertransform import *
 
 from ._version import get_versions
 __version__ = get_versions()['version']
